@@ -733,6 +733,16 @@ fn deadlock_cases(loops: usize) -> Vec<DeadlockCase> {
         DeadlockCase { id: "F-C19-7", kind: "l", init: json!(l50), scripts: vec![reader("c == c"), lmut.clone(), lmut.clone()] },
         DeadlockCase { id: "F-C19-8", kind: "l", init: json!(l50), scripts: vec![reader("c + c"), lmut.clone(), lmut] },
         DeadlockCase { id: "F-C19-9", kind: "m", init: json!([[1, 10], [2, 20]]), scripts: vec![reader("c == c"), mmut.clone(), mmut] },
+        DeadlockCase {
+            id: "F-C19-12",
+            kind: "l",
+            init: json!([1]),
+            scripts: vec![
+                format!("export run = |c|\n  c.push(c)\n  for i in 0..{}\n    try\n      x = koto.deep_copy(c)\n    catch _\n      null\n  ['u']\n", loops * 2 / 3),
+                format!("export run = |c|\n  for i in 0..{}\n    c.insert(0, i)\n    c.remove(0)\n  ['u']\n", loops * 2 / 3),
+                format!("export run = |c|\n  for i in 0..{}\n    c.insert(0, i)\n    c.remove(0)\n  ['u']\n", loops * 2 / 3),
+            ],
+        },
     ]
 }
 
